@@ -1,3 +1,308 @@
-import LA.Model.NumFmt
+/-
+C10 — Metadata a format cannot hold is reported, never silently altered.
+
+Part 1: the numeric formatters (`LA.Model.NumFmt`, exact models of the C functions, tied to
+the C by the `codec` engine's `fmt` / `atol` ops).  For every formatter:
+  * the overflow indication is returned exactly when the value does not fit the field,
+  * the output has exactly the field width (nothing is written outside the field) and on
+    overflow the field is saturated,
+  * what was written without an overflow indication parses back to the value with the
+    reader's own parser.
+Where the unchanged code violates this (gnutar `format_octal` on negative values, the binary
+cpio 16/32-bit stores) the full statement is kept as a `def … : Prop`, its negation is proved
+with a concrete witness and a `_partial` theorem names what is excluded.
+-/
+import LA.Lemmas.NumFmt
 namespace LA.C10
+open LA.NumFmt
+
+/-- The value fits a field of `s` digits in base `b`. -/
+def fits (b : Nat) (s : Nat) (v : Int) : Prop := 0 ≤ v ∧ v < ((b ^ s : Nat) : Int)
+instance (b s : Nat) (v : Int) : Decidable (fits b s v) := by unfold fits; infer_instance
+
+/-! ### ustar / v7tar `format_octal` -/
+
+theorem ustar_octal_overflow_iff (v : Int) (s : Nat) :
+    (ustarFormatOctal v s).1 = true ↔ ¬ fits 8 s v := by
+  rw [ustarFormatOctal_eq]
+  unfold fits
+  by_cases hneg : v < 0
+  · simp only [if_pos hneg]; constructor
+    · intro _ h; omega
+    · intro _; trivial
+  · rw [if_neg hneg]
+    by_cases hfit : v.toNat < 8 ^ s
+    · rw [if_pos hfit]; constructor
+      · intro h; cases h
+      · intro h; exact absurd ⟨by omega, by omega⟩ h
+    · rw [if_neg hfit]; constructor
+      · intro _ h; omega
+      · intro _; rfl
+
+example : (ustarFormatOctal 262144 6).1 = true ∧ (ustarFormatOctal 262143 6).1 = false := by decide
+
+theorem ustar_octal_field_width_exact (v : Int) (s : Nat) : (ustarFormatOctal v s).2.length = s := by
+  rw [ustarFormatOctal_eq]
+  split
+  · simp
+  · split <;> simp [octHead_length]
+
+/-- On overflow the field is saturated: all '0' for a negative value, all '7' otherwise. -/
+theorem ustar_octal_saturates (v : Int) (s : Nat) (h : (ustarFormatOctal v s).1 = true) :
+    (ustarFormatOctal v s).2 = List.replicate s (if v < 0 then c0 else c7) := by
+  rw [ustarFormatOctal_eq] at *
+  by_cases hneg : v < 0
+  · simp only [if_pos hneg]
+  · simp only [if_neg hneg] at *
+    split at h
+    · cases h
+    · rename_i hne; rw [if_neg hne]
+
+/-- What `format_octal` wrote without complaint is read back exactly by `tar_atol`, whatever
+non-digit (terminator) or field end follows.  `s ≤ 20`: an `int64_t` octal field. -/
+theorem tar_atol_ustar_octal_roundtrip (v : Int) (s : Nat) (tail : List Nat)
+    (hs : 0 < s) (hs20 : s ≤ 20) (hok : (ustarFormatOctal v s).1 = false)
+    (ht : tail = [] ∨ ∃ c r, tail = c :: r ∧ nonOctal c) :
+    tarAtol ((ustarFormatOctal v s).2 ++ tail) = v := by
+  have hfit : fits 8 s v := Decidable.byContradiction fun hc => by
+    rw [← ustar_octal_overflow_iff] at hc; rw [hok] at hc; cases hc
+  obtain ⟨h0, hlt⟩ := hfit
+  have hnn : ¬ v < 0 := by omega
+  have hvn : v.toNat < 8 ^ s := by omega
+  have hbytes : (ustarFormatOctal v s).2 = octHead v.toNat s := by
+    rw [ustarFormatOctal_eq, if_neg hnn, if_pos hvn]
+  have hbound : v.toNat ≤ 1152921504606846975 := by
+    have h1 : 8 ^ s ≤ 8 ^ 20 := Nat.pow_le_pow_right (by decide) hs20
+    have h2 : (8 : Nat) ^ 20 = 1152921504606846976 := by decide
+    omega
+  rw [hbytes, tarAtol_octHead _ _ _ hs hvn hbound ht]
+  omega
+
+example : tarAtol ((ustarFormatOctal 1000 6).2 ++ [32, 0]) = 1000 := by decide
+
+/-! ### ustar / v7tar `format_number` -/
+
+/-- Strict mode (what the ustar and v7tar writers use) is plain `format_octal`. -/
+theorem ustar_number_strict (v : Int) (s m : Nat) : ustarFormatNumber v s m true = ustarFormatOctal v s := by
+  unfold ustarFormatNumber; rfl
+
+/-- Non-strict mode (pax) never reports an overflow: it extends into the terminators and
+finally switches to base-256.  (Whether base-256 then holds the value is
+`tar_atol256_format256_roundtrip` below — in an 8-byte field it does not for |v| ≥ 2^62.) -/
+theorem ustar_number_nonstrict_never_overflows (v : Int) (s m : Nat) (hs : s ≤ m) :
+    (ustarFormatNumber v s m false).1 = false := by
+  unfold ustarFormatNumber
+  simp only [Bool.false_eq_true, if_false]
+  by_cases hv : v ≥ 0
+  · simp only [if_pos hv]
+    -- the loop only ever returns a `format_octal` of a value that fits
+    have key : ∀ n s', (numLoop v s' n).elim True (fun r => r.1 = false) := by
+      intro n
+      induction n with
+      | zero => intro s'; simp [numLoop]
+      | succ n ih =>
+        intro s'
+        simp only [numLoop]
+        by_cases hlt : v < 8 ^ s'
+        · simp only [if_pos hlt, Option.elim]
+          have hf : fits 8 s' v := ⟨hv, by rw [int_pow8] at hlt; exact hlt⟩
+          cases hb : (ustarFormatOctal v s').1
+          · rfl
+          · exact absurd hf ((ustar_octal_overflow_iff v s').1 hb)
+        · simp only [if_neg hlt]; exact ih (s' + 1)
+    have := key (m + 1 - s) s
+    cases hn : numLoop v s (m + 1 - s) with
+    | none => rfl
+    | some r => rw [hn] at this; exact this
+  · simp only [if_neg hv]
+
+example : (ustarFormatNumber 2097152 6 8 false).1 = false ∧ (ustarFormatNumber (-5) 6 8 false).1 = false := by decide
+
+/-! ### gnutar `format_octal` — the full statement is false of the unchanged code -/
+
+/-- Full-strength statement for gnutar's `format_octal`. -/
+def gnutar_octal_overflow_iff_full : Prop :=
+  ∀ (v : Int) (s : Nat), (gnutarFormatOctal v s).1 = true ↔ ¬ fits 8 s v
+
+/-- Witness: mtime = -1 into the 11-digit field: stored as 00000000000, returns 0. -/
+theorem gnutar_octal_overflow_iff_false : ¬ gnutar_octal_overflow_iff_full := by
+  intro h
+  have := (h (-1) 11).2 (by unfold fits; omega)
+  revert this; decide
+
+/-- A negative value is silently stored as zero. -/
+theorem gnutar_octal_negative_stored_as_zero (v : Int) (s : Nat) (h : v < 0) :
+    gnutarFormatOctal v s = (false, List.replicate s c0) := by
+  rw [gnutarFormatOctal_eq]
+  simp only [if_pos h]
+  have : (0 : Int).toNat < 8 ^ s := pow_pos8 s
+  rw [if_pos this]
+  show (false, octHead 0 s) = _
+  rw [octHead_zero]
+
+/-- Excluding negative values the indication is exact. -/
+theorem gnutar_octal_overflow_iff_partial (v : Int) (s : Nat) (hv : 0 ≤ v) :
+    (gnutarFormatOctal v s).1 = true ↔ ¬ fits 8 s v := by
+  rw [gnutarFormatOctal_eq]
+  have hnn : ¬ v < 0 := by omega
+  simp only [if_neg hnn]
+  unfold fits
+  by_cases hfit : v.toNat < 8 ^ s
+  · rw [if_pos hfit]; constructor
+    · intro h; cases h
+    · intro h; exact absurd ⟨hv, by omega⟩ h
+  · rw [if_neg hfit]; constructor
+    · intro _ h; omega
+    · intro _; rfl
+
+example : (gnutarFormatOctal 8589934592 11).1 = true ∧ (0 : Int) ≤ 8589934592 := by decide
+
+theorem gnutar_octal_field_width_exact (v : Int) (s : Nat) : (gnutarFormatOctal v s).2.length = s := by
+  rw [gnutarFormatOctal_eq]
+  by_cases h : (if v < 0 then 0 else v).toNat < 8 ^ s
+  · rw [if_pos h]; exact octHead_length _ _
+  · rw [if_neg h]; simp
+
+/-! ### cpio odc `format_octal`, newc `format_hex` -/
+
+theorem odc_octal_overflow_iff (v : Int) (d : Nat) : (odcFormatOctal v d).1 = true ↔ ¬ fits 8 d v := by
+  rw [odcFormatOctal_eq]; unfold fits
+  by_cases h : 0 ≤ v ∧ v.toNat < 8 ^ d
+  · rw [if_pos h]; constructor
+    · intro h'; cases h'
+    · intro h'; exact absurd ⟨h.1, by omega⟩ h'
+  · rw [if_neg h]; constructor
+    · intro _ h'; exact h ⟨h'.1, by omega⟩
+    · intro _; rfl
+
+example : (odcFormatOctal 262144 6).1 = true ∧ (odcFormatOctal 262143 6).1 = false := by decide
+
+theorem odc_octal_field_width_exact (v : Int) (d : Nat) : (odcFormatOctal v d).2.length = d := by
+  rw [odcFormatOctal_eq]; split <;> simp [octHead_length]
+
+/-- On overflow (including negative values) the field holds the maximum. -/
+theorem odc_octal_saturates (v : Int) (d : Nat) (h : (odcFormatOctal v d).1 = true) :
+    (odcFormatOctal v d).2 = List.replicate d c7 := by
+  rw [odcFormatOctal_eq] at *
+  split at h
+  · cases h
+  · rename_i hne; rw [if_neg hne]
+
+/-- The cpio reader's `atol8` returns what `format_octal` stored without complaint
+(field of at most 21 digits: no `uint64_t` wrap). -/
+theorem cpio_atol8_odc_roundtrip (v : Int) (d : Nat) (tail : List Nat) (hd : d ≤ 21)
+    (hok : (odcFormatOctal v d).1 = false)
+    (ht : tail = [] ∨ ∃ c r, tail = c :: r ∧ ¬(c0 ≤ c ∧ c ≤ c7)) :
+    ((cpioAtol8 ((odcFormatOctal v d).2 ++ tail) 0 : Nat) : Int) = v := by
+  have hfit : fits 8 d v := Decidable.byContradiction fun hc => by
+    rw [← odc_octal_overflow_iff] at hc; rw [hok] at hc; cases hc
+  obtain ⟨h0, hlt⟩ := hfit
+  have hvn : v.toNat < 8 ^ d := by omega
+  rw [odcFormatOctal_eq, if_pos ⟨h0, hvn⟩]
+  have h1 : 8 ^ d ≤ 8 ^ 21 := Nat.pow_le_pow_right (by decide) hd
+  have h2 : (8 : Nat) ^ 21 = 9223372036854775808 := by decide
+  rw [cpioAtol8_octHead _ _ _ _ (by rw [Nat.mod_eq_of_lt hvn]; omega), cpioAtol8_stop _ _ ht]
+  rw [Nat.mod_eq_of_lt hvn]; omega
+
+example : cpioAtol8 ((odcFormatOctal 4242 6).2 ++ [48]) 0 ≠ 4242 := by decide   -- a digit must not follow
+example : cpioAtol8 ((odcFormatOctal 4242 6).2) 0 = 4242 := by decide
+
+theorem newc_hex_overflow_iff (v : Int) (d : Nat) : (newcFormatHex v d).1 = true ↔ ¬ fits 16 d v := by
+  rw [newcFormatHex_eq]; unfold fits
+  by_cases h : 0 ≤ v ∧ v.toNat < 16 ^ d
+  · rw [if_pos h]; constructor
+    · intro h'; cases h'
+    · intro h'; exact absurd ⟨h.1, by omega⟩ h'
+  · rw [if_neg h]; constructor
+    · intro _ h'; exact h ⟨h'.1, by omega⟩
+    · intro _; rfl
+
+example : (newcFormatHex 4294967296 8).1 = true ∧ (newcFormatHex 4294967295 8).1 = false := by decide
+
+theorem newc_hex_field_width_exact (v : Int) (d : Nat) : (newcFormatHex v d).2.length = d := by
+  rw [newcFormatHex_eq]; split <;> simp [hexHead_length]
+
+theorem newc_hex_saturates (v : Int) (d : Nat) (h : (newcFormatHex v d).1 = true) :
+    (newcFormatHex v d).2 = List.replicate d 102 := by
+  rw [newcFormatHex_eq] at *
+  split at h
+  · cases h
+  · rename_i hne; rw [if_neg hne]
+
+/-- The cpio reader's `atol16` returns what `format_hex` stored without complaint. -/
+theorem cpio_atol16_newc_roundtrip (v : Int) (d : Nat) (hd : d ≤ 15)
+    (hok : (newcFormatHex v d).1 = false) :
+    ((cpioAtol16 (newcFormatHex v d).2 0 : Nat) : Int) = v := by
+  have hfit : fits 16 d v := Decidable.byContradiction fun hc => by
+    rw [← newc_hex_overflow_iff] at hc; rw [hok] at hc; cases hc
+  obtain ⟨h0, hlt⟩ := hfit
+  have hvn : v.toNat < 16 ^ d := by omega
+  rw [newcFormatHex_eq, if_pos ⟨h0, hvn⟩]
+  have h1 : 16 ^ d ≤ 16 ^ 15 := Nat.pow_le_pow_right (by decide) hd
+  have h2 : (16 : Nat) ^ 15 = 1152921504606846976 := by decide
+  have := cpioAtol16_hexHead v.toNat d 0 [] (by rw [Nat.mod_eq_of_lt hvn]; omega)
+  rw [List.append_nil] at this
+  rw [this, Nat.mod_eq_of_lt hvn]
+  show ((cpioAtol16 [] (0 * 16 ^ d + v.toNat) : Nat) : Int) = v
+  simp only [cpioAtol16]; omega
+
+example : cpioAtol16 (newcFormatHex 3735928559 8).2 0 = 3735928559 := by decide
+
+/-! ### ar `format_octal` / `format_decimal` -/
+
+theorem ar_format_overflow_iff (b : Nat) (hb : 2 ≤ b) (v : Int) (s : Nat) (hs : 0 < s) :
+    (arFormat b v s).1 = true ↔ ¬ fits b s v := by
+  obtain ⟨s', rfl⟩ : ∃ s', s = s' + 1 := ⟨s - 1, by omega⟩
+  unfold arFormat fits
+  by_cases hneg : v < 0
+  · simp only [if_pos hneg]; constructor
+    · intro _ h; omega
+    · intro _; trivial
+  · simp only [if_neg hneg]
+    have hspec := (arLoop_spec b hb s' v.toNat).2
+    by_cases h0 : (arLoop b v.toNat (s' + 1)).2.1 = 0
+    · rw [if_pos h0]; constructor
+      · intro h; cases h
+      · intro h; exact absurd ⟨by omega, by have := hspec.1 h0; omega⟩ h
+    · rw [if_neg h0]; constructor
+      · intro _ h; exact h0 (hspec.2 (by omega))
+      · intro _; rfl
+
+example : (arFormat 10 1000000 6).1 = true ∧ (arFormat 10 999999 6).1 = false := by decide
+
+theorem ar_format_field_width_exact (b : Nat) (hb : 2 ≤ b) (v : Int) (s : Nat) (hs : 0 < s) :
+    (arFormat b v s).2.length = s := by
+  obtain ⟨s', rfl⟩ : ∃ s', s = s' + 1 := ⟨s - 1, by omega⟩
+  unfold arFormat
+  split
+  · simp
+  · simp only []
+    split
+    · simp only [List.length_append, List.length_replicate]; exact (arLoop_spec b hb s' v.toNat).1
+    · simp
+
+/-! ### binary cpio: 16 / 32-bit stores carry no overflow indication -/
+
+/-- The reader's `header[o] + header[o+1] * 256`. -/
+def le16 : List Nat → Nat
+  | [a, b] => a + b * 256
+  | _ => 0
+
+/-- Full-strength statement: the store is exact (no two values share a representation). -/
+def bin16_exact_full : Prop := ∀ v : Int, isI64 v → ((le16 (bin16 v) : Nat) : Int) = v
+
+theorem bin16_exact_false : ¬ bin16_exact_full := by
+  intro h
+  have := h 65536 (by unfold isI64 I64_MIN I64_MAX; omega)
+  revert this; decide
+
+/-- Inside 0 … 65535 the store is exact. -/
+theorem bin16_exact_partial (v : Int) (h0 : 0 ≤ v) (h1 : v < 65536) : ((le16 (bin16 v) : Nat) : Int) = v := by
+  unfold bin16 le16
+  simp only []
+  have : (v % 65536).toNat = v.toNat := by omega
+  rw [this]; omega
+
+example : le16 (bin16 65535) = 65535 ∧ le16 (bin16 65536) = 0 := by decide
+
 end LA.C10
